@@ -3,6 +3,7 @@ package main
 import (
 	"fmt"
 	"go/token"
+	"go/types"
 	"strings"
 
 	"golang.org/x/tools/go/ssa"
@@ -253,6 +254,27 @@ func runC04(c *Ctx) {
 				"", "heap.Remove is reachable for a snowflake whose index may be -1 (already claimed by a client)", p.pathString(path)...)
 			// index argument is that snowflake's index
 			c.check(isFieldLoadOf(ci.Common().Args[1], idxF), rule2, p.FnName(fn)+" removes at the snowflake's own index", p.instrPos(ci), "", "heap.Remove is given something other than the snowflake's index")
+			// ... and that snowflake is the waiter's own registration, not whatever the id map holds under
+			// its id: session ids come from the proxies, two overlapping polls may carry the same one, and
+			// the map then names only the later registration. A waiter that withdraws "the entry under my
+			// id" removes the other poll's registration and leaves its own in the heap with nobody
+			// listening - the other poll and the next client that pops the orphan wait for ever.
+			if base, _, okb := fieldLoad(ci.Common().Args[1]); okb {
+				viaMap := false
+				xforms(base, func(x ssa.Value) bool {
+					if ex, isEx := x.(*ssa.Extract); isEx {
+						x = ex.Tuple
+					}
+					if lk, isLk := x.(*ssa.Lookup); isLk {
+						if _, isMap := lk.X.Type().Underlying().(*types.Map); isMap {
+							viaMap = true
+							return true
+						}
+					}
+					return false
+				})
+				c.check(!viaMap, rule2, p.FnName(fn)+" withdraws the registration it holds, not one looked up by id", p.instrPos(ci), "", "the snowflake removed from the heap is the result of a map lookup by session id: with two overlapping polls under one id the timed-out waiter withdraws the other poll's registration and leaves its own behind")
+			}
 			// test and removal in one critical section: lock held at the Remove and where the index is read;
 			// the function that tests takes the lock once
 			okCS := le.Held(ci, "BrokerContext.snowflakeLock") >= heldWrite
